@@ -11,7 +11,7 @@ Third == IF ThirdActs = "All" THEN Acts ELSE {<<NOOP, 0>>, <<7, 0>>, <<KILL, INF
 Triples == {<<a, b, c>> : a \in Acts, b \in Acts, c \in Third}
 
 StartOpts == {[dl |-> d, stop |-> NoStop, nb |-> FALSE, rin |-> 0, rout |-> 0, rerr |-> 0, input |-> -1,
-               term |-> t, self |-> sf, prog |-> "/bin/c"] : d \in DlOpts, t \in 0..2, sf \in BOOLEAN}
+               term |-> t, self |-> sf, prog |-> "/bin/c", fork |-> fk] : d \in DlOpts, t \in 0..2, sf \in BOOLEAN, fk \in BOOLEAN}
 
 Next ==
   \/ ncalls = 0 /\ New(1)
